@@ -298,7 +298,7 @@ impl Message {
 
                                     info_hash: announce_peer_args.info_hash.into(),
                                     port: announce_peer_args.port,
-                                    implied_port: if announce_peer_args.implied_port.is_some() {
+                                    implied_port: if announce_peer_args.implied_port == Some(true) {
                                         Some(1)
                                     } else {
                                         Some(0)
